@@ -1020,8 +1020,11 @@ impl Drop for ReservedSession<'_> {
     fn drop(&mut self) {
         self.matter.with_state(|state| {
             if self.complete {
-                let session = unwrap!(state.sessions.get(self.id));
-                session.reserved = false;
+                // The session might be gone by now: e.g. its fabric was removed while the
+                // handshake that reserved it was still completing
+                if let Some(session) = state.sessions.get(self.id) {
+                    session.reserved = false;
+                }
             } else {
                 state.sessions.remove(self.id);
             }
